@@ -908,13 +908,21 @@ Proof.
   - apply run_delete_env.
 Qed.
 
+Lemma call_polled_env f args va go s : env_eq true nonsentinel (r_env s) (call_polled cancel_at rec f args va go s).
+Proof.
+  unfold call_polled. destruct (poll cancel_at s) as [cancelled s0] eqn:Hp. pose proof (poll_env _ _ _ Hp) as H0.
+  destruct cancelled.
+  - right. split; [simp; congruence|exact I].
+  - rewrite <- H0. apply call_function_env.
+Qed.
+
 Theorem exec_body_env c s : env_eq (strict_cmd c) (err_pred c) (post_env c s) (exec_body orc cancel_at rec c s).
 Proof.
   destruct c; cbn [exec_body strict_cmd post_env].
   - apply run_single_env.
   - apply invoke_expr_env.
   - apply invoke_let_env.
-  - apply call_function_env.
+  - apply call_polled_env.
   - apply apply_fn_env.
   - apply loop_iter_env.
   - apply for_slice_iter_env.
